@@ -95,8 +95,6 @@ def close_list(got, want, sem):
             if g != w:
                 return False
             continue
-        if sem == 'real' and w == 0 and g != 0:
-            return False
         if abs(g - w) > 1e-9 * max(1.0, abs(w)):
             return False
     return True
@@ -157,7 +155,10 @@ def judge_s(n, Aflat, bvals, sem, two, r, case):
         want = oracle_dense(A, bcol, sem)
         got = (x[:, c] if two else x).tolist()
         if not close_list(got, want, sem):
-            r.bad('not-least-solution', 'semirings.' + type(S).__name__ + '.solve', sem, '%s: A=%r b=%r: solve gives %r, least solution %r' % (sem, [[str(v) for v in row] for row in A], [str(v) for v in bcol], got, want), case, key)
+            trig = sem
+            if sem == 'log' and any(k >= 3 for k in oracles.critical_block_sizes(A, bcol)):
+                trig = 'log/critical-block>=3'      # known finding K06 (input predicate: an irreducible block with rho exactly 1)
+            r.bad('not-least-solution', 'semirings.' + type(S).__name__ + '.solve', trig, '%s: A=%r b=%r: solve gives %r, least solution %r' % (sem, [[str(v) for v in row] for row in A], [str(v) for v in bcol], got, want), case, key)
             return
     r.ok(key, outcome=(sem, 'inf' if any(w == inf for w in want if not isinstance(w, bool)) else 'finite'), nontrivial=any(v != 0 for v in Aflat))
 
